@@ -298,13 +298,21 @@ pub fn oracle_c11(c: &InvCtx) -> Option<Violation> {
             let insts = r.insts(&c.sim_id(&d));
             // the instance must be up at the build's start and stay up until the build's own
             // exit; a build cancelled at shutdown only needs the service at its start
+            // a one-shot run also shuts down when a target fails: from then on services and
+            // builds are torn down side by side, as after a signal
             let natural_end = p.exit.as_ref().map(|e| e.0);
+            let first_failure = observed_failures(c).iter().map(|f| f.1).min();
+            let shutdown = match (sig, first_failure) {
+                (Some(a), Some(b)) => Some(a.min(b)),
+                (a, b) => a.or(b),
+            };
+            let needed_until = natural_end.unwrap_or(p.spawn_seq).min(shutdown.unwrap_or(u64::MAX)).max(p.spawn_seq);
             let covering = insts.iter().any(|s| {
                 let s_end = s.kill_seq.or(s.exit.as_ref().map(|e| e.0)).unwrap_or(u64::MAX);
-                s.spawn_seq < p.spawn_seq && s_end > natural_end.unwrap_or(p.spawn_seq)
+                s.spawn_seq < p.spawn_seq && s_end > needed_until
             });
             let _ = end;
-            if !covering && sig.map(|s| s > p.spawn_seq).unwrap_or(true) {
+            if !covering && shutdown.map(|s| s > p.spawn_seq).unwrap_or(true) {
                 return viol(
                     "service-not-running-during-dependent-build",
                     format!("build={} service={}", c.display(&t), c.display(&d)),
@@ -459,6 +467,15 @@ impl Property for C04 {
             rng.shuffle(&mut args);
             sc.label = format!("many-roots-{}", sc.label);
         }
+        if rng.chance(4) {
+            // a command resource that prints more than a pipe buffer holds
+            let builds: Vec<usize> = (0..sc.projects[0].targets.len()).filter(|&i| sc.projects[0].targets[i].kind == Kind::Build).collect();
+            if !builds.is_empty() {
+                let i = *rng.pick(&builds);
+                sc.projects[0].targets[i].input.push(Res::Cmd { key: "big".into() });
+                sc.vars.insert("p0__big".into(), format!("!big:{}:end of a long listing\n", rng.range(66_000, 300_000)));
+            }
+        }
         let mut inv = standard_invocation(rng, &sc, args);
         if rng.chance(15) {
             // termination must not depend on every script succeeding
@@ -522,6 +539,17 @@ impl Property for C01 {
         if rng.chance(35) {
             return super::watch::gen_watch(rng, &super::watch::WatchOpts { inside_build_pct: 60, fail_pct: 15, ..Default::default() });
         }
+        if rng.chance(15) {
+            // several projects reusing target names, dependencies spelled as `dependencies`, as
+            // `X.output`, or both, within and across projects
+            let mut sc = gen::gen_io(rng, &gen::IoOpts { multi_project_pct: 100, max_targets: 7, cmd_pct: 10, cmd_output_pct: 0 });
+            let args = gen::gen_request_io(rng, &sc, 0);
+            if !args.is_empty() {
+                let inv = standard_invocation(rng, &sc, args);
+                sc.steps.push(Step::Invoke(inv));
+                return sc;
+            }
+        }
         let mut sc = gen::gen_graph(rng, &GraphOpts { max_n: 10, ..Default::default() });
         let args = gen::gen_request(rng, &sc);
         let mut inv = standard_invocation(rng, &sc, args);
@@ -580,10 +608,50 @@ impl Property for C08 {
             // several projects with the same target names: names must resolve inside the
             // declaring project, or a target outside the closure runs
             let mut sc = gen::gen_io(rng, &gen::IoOpts { multi_project_pct: 100, max_targets: 7, cmd_pct: 10, cmd_output_pct: 0 });
+            // a link inside one target's filtered output directory to the output directory of
+            // another target of the same project: not part of the former's outputs
+            let mut links = vec![];
+            for p in &sc.projects {
+                let filtered: Vec<&Target> = p.targets.iter().filter(|t| t.output.iter().any(|r| matches!(r, Res::Paths { extensions: Some(e), .. } if e.iter().any(|x| !x.is_empty())))).collect();
+                let with_dir: Vec<&Target> = p.targets.iter().filter(|t| t.writes.iter().any(|w| w.starts_with(&format!("out/{}/", t.name)))).collect();
+                for a in &filtered {
+                    for b in &with_dir {
+                        if a.name != b.name && rng.chance(50) {
+                            if let Some(Res::Paths { paths, .. }) = a.output.iter().find(|r| matches!(r, Res::Paths { extensions: Some(_), .. })) {
+                                let up = "../".repeat(paths[0].matches('/').count() + 1);
+                                links.push(FileSpec { path: format!("{}/{}/peer-{}", p.dir, paths[0], b.name), kind: FileKind::Symlink(format!("{}out/{}", up, b.name)) });
+                            }
+                        }
+                    }
+                }
+            }
+            sc.files.extend(links);
+            // a third of these: everything is built first, then a part of it is cleaned
+            let clean = rng.chance(35);
+            if clean {
+                let mut all = vec![];
+                for pi in gen::loaded_projects(&sc, 0) {
+                    for t in sc.projects[pi].targets.iter().filter(|t| t.kind == Kind::Build) {
+                        match (&sc.projects[pi].name, pi) {
+                            (_, 0) => all.push(t.name.clone()),
+                            (Some(n), _) => all.push(format!("{}::{}", n, t.name)),
+                            _ => {}
+                        }
+                    }
+                }
+                if !all.is_empty() {
+                    let mut inv = super::history::plain_invocation(rng, &sc, 0, all);
+                    inv.plan.strategy = simrt::plan::Strategy::Fifo;
+                    sc.steps.push(Step::Invoke(inv));
+                }
+            }
             for _ in 0..rng.range(1, 2) {
-                let args = gen::gen_request_io(rng, &sc, 0);
+                let mut args = gen::gen_request_io(rng, &sc, 0);
                 if args.is_empty() {
                     continue;
+                }
+                if clean {
+                    args.insert(0, "--clean".into());
                 }
                 let inv = super::history::plain_invocation(rng, &sc, 0, args);
                 sc.steps.push(Step::Invoke(inv));
@@ -814,6 +882,17 @@ impl Property for C11 {
         if inv.plan.events.is_empty() {
             inv.plan.events.push(gen::signal_at_idle());
         }
+        if rng.chance(25) {
+            // a build fails (or cannot be launched) while services may already be up: the run
+            // ends with an error, and every service started so far is stopped all the same
+            let req = model::requested(&sc, 0, &inv.args);
+            let builds: Vec<Tid> = model::closure(&sc, &req).into_iter().filter(|t| model::kind_of(&sc, t) == Some(Kind::Build)).collect();
+            if !builds.is_empty() {
+                let t = rng.pick(&builds).clone();
+                let id = sc.sim_id(t.0, &t.1);
+                inv.plan.faults.push(if rng.chance(80) { Fault { site: format!("proc.exit:{}", id), occurrence: 1, kind: gen::fail_exit(rng) } } else { Fault { site: format!("proc.spawn:{}", id), occurrence: 1, kind: "eagain".into() } });
+            }
+        }
         sc.steps.push(Step::Invoke(inv));
         sc
     }
@@ -904,6 +983,25 @@ impl Property for C17 {
             let name = format!("x{}", anti.len());
             sc.projects[0].targets.push(Target::new(&name, Kind::Build));
             anti.push((0, name));
+        }
+        // every seventh case: an imported project holds a quick build with the same bare name as
+        // one member, and another member consumes `lib::<name>.output` - which names the imported
+        // target, not its namesake next door
+        if case_no % 7 == 3 && anti.len() >= 2 && sc.projects.len() == 1 {
+            let a = anti[0].clone();
+            let b = anti[1].clone();
+            if model::kind_of(&sc, &a) == Some(Kind::Build) && model::kind_of(&sc, &b) == Some(Kind::Build) {
+                let mut twin = Target::new(&b.1, Kind::Build);
+                let out = format!("out/{}.out", b.1);
+                twin.output.push(Res::Paths { paths: vec![out.clone()], extensions: None });
+                twin.writes.push(out);
+                sc.projects.push(Project { dir: "p1".into(), name: Some("lib".into()), imports: vec![], targets: vec![twin], raw_yaml: None });
+                sc.projects[0].imports.push(("lib".into(), 1));
+                sc.files.push(FileSpec { path: "p1/out".into(), kind: FileKind::Dir });
+                if let Some(ta) = sc.projects[0].targets.iter_mut().find(|x| x.name == a.1) {
+                    ta.deps.push(DepRef { project: 1, target: b.1.clone(), via_dep: false, via_output: true, qualified: true });
+                }
+            }
         }
         let ids: Vec<String> = anti.iter().map(|t| sc.sim_id(t.0, &t.1)).collect();
         for t in &anti {
